@@ -354,6 +354,23 @@ def gen_c13(ctx):
 # ---------------------------------------------------------------- C14
 def gen_c14(ctx):
     rng = ctx["rng"]
+    # an observer is unregistered from inside another observer's callback (re-entrant removal): it must be told nothing further,
+    # not even the event that is being delivered if it stands behind the remover
+    for (i, j) in ((0, 1), (0, 2), (1, 2), (2, 0), (1, 0), (2, 1), (0, 3), (3, 1)):
+        for kind in range(4):
+            cfg = Cfg(rng, "C14", ip=4); c0 = str(cfg)
+            ops = ["addobs:0", "addobs:1", "addobs:2", "addobs:3"]
+            if kind == 0:
+                ops += ["rmin:%d:%d" % (i, j), op_connect(rng, cfg, user=(b"u", b"p")), op_simple(rng, cfg, "noop", 200)]
+            elif kind == 1:
+                ops += [op_connect(rng, cfg), "rmin:%d:%d" % (i, j), op_simple(rng, cfg, "pwd", 257), op_simple(rng, cfg, "noop", 200), op_list(rng, cfg)]
+            elif kind == 2:
+                ops += [op_connect(rng, cfg), op_simple(rng, cfg, "noop", 200), "rmin:%d:%d" % (i, j), op_get(rng, cfg, size=100), op_simple(rng, cfg, "syst", 215)]
+            else:
+                ops += [op_connect(rng, cfg), "rmin:%d:%d" % (i, j), op_list(rng, cfg), "rmin:%d:%d" % (j if j != 3 else 0, (i + 1) % 3 if (i + 1) % 3 != j else (i + 2) % 3), op_rename(rng, cfg), op_simple(rng, cfg, "noop", 200)]
+            ops.append(op_disc(rng, cfg, graceful=True))
+            yield line(c0, ops)
+    ctx["scopes"].append("re-entrant removal: observer i unregisters observer j from inside its next callback, 8 (i, j) pairs of four observers x 4 positions in a history (before connect, before a simple call, before a download, twice)")
     for _ in range(n_of(ctx, 400, 4000)):
         cfg = Cfg(rng, "C14"); c0 = str(cfg)
         ops = []
